@@ -416,3 +416,231 @@ def check_c04(res, tier, replay):
     })
     res.assumptions = ['indicators only here; strategies are covered by C05/C07 checks using the same relation']
     return res.finish()
+
+
+# =====================================================================================  C15
+RANGE = {   # indicator -> list of (output index, lo, hi)
+    'Rsi': [(0, 0, 100)], 'Mfi': [(0, 0, 100)], 'StochasticOscillator': [(0, 0, 100), (1, 0, 100)],
+    'Aroon': [(0, 0, 100), (1, 0, 100)], 'WilliamsR': [(0, -100, 0)], 'StochasticRsi': [(0, 0, 1)],
+    'Mfm': [(0, -1, 1)], 'Cmf': [(0, -1, 1)], 'Bop': [(0, -1, 1)],
+    'MovingStd': [(0, 0, None)], 'Atr': [(0, 0, None)], 'UlcerIndex': [(0, 0, None)], 'BollingerBandWidth': [(0, 0, None)],
+}
+BANDS = {'BollingerBands': (0, 1, 2), 'KeltnerChannel': (0, 1, 2), 'DonchianChannel': (0, 1, 2),
+         'AccelerationBands': (0, 1, 2), 'Envelope': (0, 1, 2)}
+
+
+def leq(a, b, scale):
+    """a <= b up to rounding; None when undefined"""
+    if a != a or b != b or abs(a) == math.inf or abs(b) == math.inf:
+        return None
+    return a <= b + 1e-9 * max(abs(a), abs(b), scale * 1e-3)
+
+
+def check_c15(res, tier, replay):
+    rng = random.Random(vlib.seed() + 15)
+    vlib.apply_obligations(res, 'C15')
+    findings = load_findings('C15')
+    names = list(RANGE) + list(BANDS) + ['MovingMax', 'MovingMin']
+    per = 24 if tier == 'quick' else 200
+    if replay:
+        cases = replay_cases(replay)
+    else:
+        cases = [w for w, _ in witness_cases('C15')]
+        for name in names:
+            for j in range(per):
+                kinds, cfg, (dns, dfs) = CAT[name]
+                ns, fs = (list(dns), list(dfs)) if j == 0 else cfg(rng, 12 if tier == 'quick' else 40)
+                ns, fs = list(ns), list(fs)
+                w = idle_of(name, ns)
+                n = rng.choice([w + 1, w + 2, 2 * w + 2, rng.randrange(w, w + 80)])
+                # valid OHLCV only (positive prices): plain-numeric indicators get a price series here
+                regime = REGIMES[j % len(REGIMES)]
+                ins, regime, _ = make_inputs(rng, name, n, regime)
+                cases.append((name, ns, fs, ins, regime))
+    lines, go, model = run_both(cases)
+    mism = correspondence(res, cases, lines, go, model, 'C15')
+    checked = exempt = bad = 0
+    cells = set()
+    known_seen = collections.defaultdict(int)
+    for i, c in enumerate(cases):
+        cid = lines[i].split(' ')[0]
+        g = parse_ind(go.get(cid, 'missing'))
+        if g['status'] != 'ok':
+            continue
+        name = c[0]
+        scale = max([1.0] + [abs(v) for s in c[3] for v in s])
+        outs = [[h2f(v) for v in s] for s in g['outs']]
+        problem = None
+        for (k, lo, hi) in RANGE.get(name, []):
+            for j, v in enumerate(outs[k]):
+                r1 = leq(lo, v, 1.0) if lo is not None else True
+                r2 = leq(v, hi, 1.0) if hi is not None else True
+                if r1 is None or r2 is None:
+                    exempt += 1
+                    continue
+                checked += 1
+                if not (r1 and r2) and problem is None:
+                    problem = {'output': k, 'index': j, 'value': v, 'range': [lo, hi]}
+        if name in BANDS:
+            u, mdl, l = BANDS[name]
+            for j in range(min(len(outs[u]), len(outs[mdl]), len(outs[l]))):
+                r1, r2 = leq(outs[mdl][j], outs[u][j], scale), leq(outs[l][j], outs[mdl][j], scale)
+                if r1 is None or r2 is None:
+                    exempt += 1
+                    continue
+                checked += 1
+                if not (r1 and r2) and problem is None:
+                    problem = {'index': j, 'upper': outs[u][j], 'middle': outs[mdl][j], 'lower': outs[l][j]}
+        if name in ('MovingMax', 'MovingMin'):
+            p = c[1][0]
+            for j, v in enumerate(outs[0]):
+                x = c[3][0][j + p - 1] if j + p - 1 < len(c[3][0]) else None
+                if x is None:
+                    continue
+                ok = leq(x, v, scale) if name == 'MovingMax' else leq(v, x, scale)
+                win = c[3][0][j:j + p]
+                ok2 = (v in win)
+                checked += 1
+                if not (ok and ok2) and problem is None:
+                    problem = {'index': j, 'extreme': v, 'value': x, 'window': win}
+        n = len(c[3][0]) if c[3] else 0
+        cells.add((name, tuple(c[1]), c[4], min(n // 10, 10)))
+        if problem:
+            f = findings.get(name)
+            cond = (f or {}).get('condition', {})
+            if f and ('ns0' not in cond or (c[1] and c[1][0] == cond['ns0'])):
+                known_seen[name] += 1
+                continue
+            bad += 1
+            res.violation({'case': case_json(c), 'first_difference': problem,
+                           'oracle': 'documented range / band ordering evaluated directly on the Go output'})
+    for comp, f in findings.items():
+        if known_seen.get(comp):
+            res.known_hit.append(known_line(f) + ' [%d cases]' % known_seen[comp])
+    res.samples = [{'case': lines[i][:200] + '…'} for i in (0, len(lines) // 2)] if lines else []
+    res.coverage.update({
+        'evaluations': len(cases), 'distinct_nontrivial': len(cells),
+        'rule': 'bounded/banded indicator x configuration x regime x length-decile on valid OHLCV (low<=open,close<=high, positive, '
+                'volume>=0); every emitted value is tested against its range / ordering, non-finite values exempt',
+        'values_checked': checked, 'exempt_values': exempt, 'violations_found': bad,
+        'traces_validated_against_impl': len(cases) - mism, 'go_vs_model_mismatches': mism,
+        'known_findings_seen': dict(known_seen), 'trusted_base': vlib.TRUSTED,
+    })
+    res.assumptions = ['ranges are checked up to 1e-9 relative rounding slack']
+    return res.finish()
+
+
+# =====================================================================================  C18
+# degree of homogeneity of each output in (price, volume); None = not homogeneous by documented formula
+DEG = {
+    'Apo': [(1, 0)], 'Aroon': [(0, 0), (0, 0)], 'Bop': [(0, 0)], 'Cci': [(0, 0)], 'Dema': [(1, 0)], 'Ema': [(1, 0)],
+    'Envelope': [(1, 0)] * 3, 'Hma': [(1, 0)], 'Kama': [(1, 0)], 'Kdj': [(0, 0)] * 3, 'Macd': [(1, 0)] * 2,
+    'MassIndex': [(0, 0)], 'Mlr': [(1, 0)], 'Mls': [(1, 0), (1, 0)], 'MovingMax': [(1, 0)], 'MovingMin': [(1, 0)],
+    'MovingSum': [(1, 0)], 'Rma': [(1, 0)], 'Sma': [(1, 0)], 'Smma': [(1, 0)], 'Tema': [(1, 0)], 'Trima': [(1, 0)],
+    'Trix': [(0, 0)], 'Tsi': [(0, 0)], 'TypicalPrice': [(1, 0)], 'Vwma': [(1, 0)], 'WeightedClose': [(1, 0)], 'Wma': [(1, 0)],
+    'AwesomeOscillator': [(1, 0)], 'ChaikinOscillator': [(0, 1), (0, 1)], 'IchimokuCloud': [(1, 0)] * 5,
+    'Ppo': [(0, 0)] * 3, 'Pvo': [(0, 0)] * 3, 'Qstick': [(1, 0)], 'Rsi': [(0, 0)], 'StochasticOscillator': [(0, 0)] * 2,
+    'StochasticRsi': [(0, 0)], 'WilliamsR': [(0, 0)], 'AccelerationBands': [(1, 0)] * 3, 'Atr': [(1, 0)],
+    'BollingerBandWidth': [(0, 0)], 'BollingerBands': [(1, 0)] * 3, 'ChandelierExit': [(1, 0)] * 2,
+    'DonchianChannel': [(1, 0)] * 3, 'KeltnerChannel': [(1, 0)] * 3, 'MovingStd': [(1, 0)], 'PercentB': [(0, 0)],
+    'Po': [(0, 0)], 'SuperTrend': [(1, 0)], 'UlcerIndex': [(0, 0)], 'Ad': [(0, 1)], 'Cmf': [(0, 0)], 'Emv': [(2, -1)],
+    'Fi': [(1, 1)], 'Mfi': [(0, 0)], 'Mfm': [(0, 0)], 'Mfv': [(0, 1)], 'Nvi': [(0, 0)], 'Obv': [(0, 1)], 'Vpt': [(0, 1)],
+    'Vwap': [(1, 0)],
+}
+assert set(DEG) == set(CAT)
+
+
+def scale_inputs(name, ins, cp, cv):
+    out = []
+    for k, s in zip(CAT[name][0], ins):
+        if k == 'v':
+            out.append([v * cv for v in s])
+        elif k == 'x':
+            out.append(list(s))
+        else:
+            out.append([v * cp for v in s])
+    return out
+
+
+def check_c18(res, tier, replay):
+    rng = random.Random(vlib.seed() + 18)
+    vlib.apply_obligations(res, 'C18')
+    findings = load_findings('C18')
+    base = replay_cases(replay) if replay else [w for w, _ in witness_cases('C18')] + gen_cases(rng, tier, per=(8 if tier == 'quick' else 60))
+    derived = []
+    wfactors = {} if replay else {i: (f['witness'].get('price_factor', 2.0), f['witness'].get('volume_factor', 1.0))
+                                   for i, (w, f) in enumerate(witness_cases('C18'))}
+    for bi, c in enumerate(base):
+        if not c[3] or len(c[3][0]) == 0:
+            continue
+        kinds = CAT[c[0]][0]
+        if bi in wfactors:
+            cp, cv = wfactors[bi]
+            derived.append((bi, cp, cv, (c[0], c[1], c[2], scale_inputs(c[0], c[3], cp, cv), c[4])))
+            continue
+        choices = [(2.0 ** rng.choice([-3, -1, 1, 2, 5]), 1.0)]
+        if 'v' in kinds:
+            choices.append((1.0, 2.0 ** rng.choice([-4, -1, 1, 3])))
+            choices.append((2.0 ** rng.choice([-2, 1, 4]), 2.0 ** rng.choice([-2, 2])))
+        if kinds == 'v':   # Pvo: the only input is a volume
+            choices = [(1.0, 2.0 ** rng.choice([-4, -1, 1, 3]))]
+        for cp, cv in choices:
+            derived.append((bi, cp, cv, (c[0], c[1], c[2], scale_inputs(c[0], c[3], cp, cv), c[4])))
+    allcases = base + [d[3] for d in derived]
+    lines, go, model = run_both(allcases)
+    mism = correspondence(res, allcases, lines, go, model, 'C18')
+    checked = exempt = bad = inexact = 0
+    cells = set()
+    known_seen = collections.defaultdict(int)
+    for di, (bi, cp, cv, c) in enumerate(derived):
+        g0 = parse_ind(go.get(lines[bi].split(' ')[0], 'missing'))
+        g1 = parse_ind(go.get(lines[len(base) + di].split(' ')[0], 'missing'))
+        if g0['status'] != 'ok' or g1['status'] != 'ok':
+            continue
+        name = c[0]
+        problem = None
+        for k, (o0, o1) in enumerate(zip(g0['outs'], g1['outs'])):
+            dp, dv = DEG[name][k]
+            factor = (cp ** dp) * (cv ** dv)
+            if len(o0) != len(o1):
+                problem = {'output': k, 'lengths': [len(o0), len(o1)]}
+                break
+            for j, (a, b) in enumerate(zip(o0, o1)):
+                x, y = h2f(a) * factor, h2f(b)
+                if x != x or y != y or abs(x) == math.inf or abs(y) == math.inf:
+                    exempt += 1
+                    continue
+                checked += 1
+                if x == y:
+                    continue
+                if abs(x - y) <= 1e-12 * max(abs(x), abs(y)):
+                    inexact += 1
+                    continue
+                problem = {'output': k, 'index': j, 'original': h2f(a), 'expected_scaled': x, 'got': y,
+                           'price_factor': cp, 'volume_factor': cv, 'degree': [dp, dv]}
+                break
+            if problem:
+                break
+        cells.add((name, tuple(c[1]), cp != 1.0, cv != 1.0, c[4]))
+        if problem:
+            if name in findings:
+                known_seen[name] += 1
+                continue
+            bad += 1
+            res.violation({'case': case_json(base[bi]), 'scaled_case': case_json(c), 'first_difference': problem,
+                           'oracle': 'output(scaled inputs) = output * price_factor^dp * volume_factor^dv, Go vs Go, power-of-two factors'})
+    for comp, f in findings.items():
+        if known_seen.get(comp):
+            res.known_hit.append(known_line(f) + ' [%d cases]' % known_seen[comp])
+    res.samples = [{'name': d[3][0], 'ns': d[3][1], 'price_factor': d[1], 'volume_factor': d[2]} for d in derived[:3]]
+    res.coverage.update({
+        'evaluations': len(allcases), 'distinct_nontrivial': len(cells),
+        'rule': 'indicator x configuration x (price scaled?, volume scaled?) x regime; factors are powers of two so the relation is '
+                'checked bit-for-bit (differences below 1e-12 relative are counted as inexact, larger ones are violations)',
+        'values_checked': checked, 'exempt_values': exempt, 'inexact_matches': inexact, 'violations_found': bad,
+        'traces_validated_against_impl': len(allcases) - mism, 'go_vs_model_mismatches': mism,
+        'known_findings_seen': dict(known_seen), 'trusted_base': vlib.TRUSTED,
+    })
+    res.assumptions = ['IEEE scaling by powers of two is exact absent overflow/underflow (inputs in [1/64, 1e6])',
+                       'strategies (recommendations unchanged) are checked by the C06 check relation when claimed']
+    return res.finish()
